@@ -30,9 +30,9 @@ import (
 
 type options struct {
 	prop, tier, plain, race, tmp, modroot, out, verif, file string
-	seed                                                     int64
-	idx, workers, checks                                     int
-	budget                                                   float64
+	seed                                                    int64
+	idx, workers, checks                                    int
+	budget                                                  float64
 }
 
 type workerResult struct {
@@ -125,17 +125,17 @@ func (t *simpleTB) Logf(f string, a ...any) {
 		t.logs = append(t.logs, fmt.Sprintf(f, a...))
 	}
 }
-func (t *simpleTB) Log(a ...any)               { t.Logf("%s", fmt.Sprint(a...)) }
-func (t *simpleTB) Skipf(f string, a ...any)   { panic(tbFailNow{}) }
-func (t *simpleTB) Skip(a ...any)              { panic(tbFailNow{}) }
-func (t *simpleTB) SkipNow()                   { panic(tbFailNow{}) }
-func (t *simpleTB) Errorf(f string, a ...any)  { t.failed = true; t.Logf(f, a...) }
-func (t *simpleTB) Error(a ...any)             { t.failed = true; t.Log(a...) }
-func (t *simpleTB) Fatalf(f string, a ...any)  { t.failed = true; t.Logf(f, a...); panic(tbFailNow{}) }
-func (t *simpleTB) Fatal(a ...any)             { t.failed = true; t.Log(a...); panic(tbFailNow{}) }
-func (t *simpleTB) FailNow()                   { t.failed = true; panic(tbFailNow{}) }
-func (t *simpleTB) Fail()                      { t.failed = true }
-func (t *simpleTB) Failed() bool               { return t.failed }
+func (t *simpleTB) Log(a ...any)              { t.Logf("%s", fmt.Sprint(a...)) }
+func (t *simpleTB) Skipf(f string, a ...any)  { panic(tbFailNow{}) }
+func (t *simpleTB) Skip(a ...any)             { panic(tbFailNow{}) }
+func (t *simpleTB) SkipNow()                  { panic(tbFailNow{}) }
+func (t *simpleTB) Errorf(f string, a ...any) { t.failed = true; t.Logf(f, a...) }
+func (t *simpleTB) Error(a ...any)            { t.failed = true; t.Log(a...) }
+func (t *simpleTB) Fatalf(f string, a ...any) { t.failed = true; t.Logf(f, a...); panic(tbFailNow{}) }
+func (t *simpleTB) Fatal(a ...any)            { t.failed = true; t.Log(a...); panic(tbFailNow{}) }
+func (t *simpleTB) FailNow()                  { t.failed = true; panic(tbFailNow{}) }
+func (t *simpleTB) Fail()                     { t.failed = true }
+func (t *simpleTB) Failed() bool              { return t.failed }
 
 // ---------------------------------------------------------------- worker
 
@@ -397,12 +397,12 @@ func firstN(s string, n int) string {
 }
 
 type replayFile struct {
-	Property string     `json:"property"`
-	Sig      string     `json:"sig"`
-	Detail   string     `json:"detail"`
-	Bundle   *Bundle    `json:"bundle"`
-	Obs      any        `json:"observation,omitempty"`
-	Written  string     `json:"written"`
+	Property string  `json:"property"`
+	Sig      string  `json:"sig"`
+	Detail   string  `json:"detail"`
+	Bundle   *Bundle `json:"bundle"`
+	Obs      any     `json:"observation,omitempty"`
+	Written  string  `json:"written"`
 }
 
 func writeReplay(dir string, v *Violation) string {
